@@ -60,6 +60,21 @@ def discrete_case(ctx, k, bud):
                       same_categories=({} if with_history else None), no_repeat=with_history)
     if not getattr(root, 'children', None):
         root = Sum(scope=list(root.scope), children=[root, S.rand_leaf(rs, root.scope[0], ('cat',))], weights=np.array([0.3, 0.7], dtype=np.float32))
+    if k % 5 == 4 and not with_history:
+        # a leaf / sub-circuit that is a child of SEVERAL product nodes, listed first, second or last (region-graph shapes: products of one
+        # layer sharing factors), each product with private factors of its own
+        nv, ncols = 3, 3 + int(rs.randint(0, 2))
+        scope = sorted(int(v) for v in rs.choice(ncols, nv, replace=False))
+        sh = S.rand_leaf(rs, scope[0], ('bern',)) if rs.rand() < 0.5 else \
+            Sum(children=[S.rand_leaf(rs, scope[0], ('bern',)), S.rand_leaf(rs, scope[0], ('bern',))], weights=np.array([0.35, 0.65], dtype=np.float32))
+        prods = []
+        for j in range(int(rs.randint(2, 5))):
+            priv = [S.rand_leaf(rs, scope[1], ('bern', 'cat')), S.rand_leaf(rs, scope[2], ('bern',))]
+            pos = int(rs.randint(0, 3))
+            prods.append(Product(children=priv[:pos] + [sh] + priv[pos:]))
+        w = rs.dirichlet(np.ones(len(prods))).astype(np.float32)
+        root = Sum(children=prods, weights=(w / w.sum()).astype(np.float32))
+        ctx.count('circuits-with-a-factor-shared-by-several-products')
     assign_ids(root)
     hist = None
     if with_history:
